@@ -314,7 +314,15 @@ pub struct KernelCase {
 }
 
 fn strat_kernel(_t: Tier) -> BoxedStrategy<KernelCase> {
-    (2usize..=14, 1usize..=6).prop_flat_map(|(n, p)| (vec(vec(unit().prop_map(|v| v * 3.0), p), n), kern(true))).prop_map(|(pts, kernel)| KernelCase { pts, kernel }).boxed()
+    // points with and without a large common offset (the closed forms only depend on differences / inner products)
+    (2usize..=14, 1usize..=6)
+        .prop_flat_map(|(n, p)| (vec(vec(unit().prop_map(|v| v * 3.0), p), n), kern(true), prop_oneof![3 => Just(0.0), 1 => pow2(4, 27), 1 => pow10(1, 8)], any::<bool>()))
+        .prop_map(|(pts, kernel, off, neg)| {
+            // offsets only where the kernel value stays in a meaningful range: RBF (differences) and linear (inner products)
+            let off = if matches!(kernel, Kern::Rbf { .. } | Kern::Linear) { if neg { -off } else { off } } else { 0.0 };
+            KernelCase { pts: pts.iter().map(|r| r.iter().map(|v| v + off).collect()).collect(), kernel }
+        })
+        .boxed()
 }
 
 fn gram<K: Kernel<f64, Vec<f64>>>(k: K, pts: &Rows) -> Result<Mat, String> {
@@ -324,12 +332,15 @@ fn gram<K: Kernel<f64, Vec<f64>>>(k: K, pts: &Rows) -> Result<Mat, String> {
 fn check_kernel(case: &KernelCase, ctx: &mut Ctx) -> Result<(), Fail> {
     let n = case.pts.len();
     ctx.label(format!("kernel:{}", case.kernel.name()));
+    ctx.label_if(case.pts[0][0].abs() > 16.0, "large-common-offset");
     ctx.nontrivial(n >= 3);
     let g = with_kernel!(case.kernel, gram, &case.pts).map_err(|p| Fail { sig: "kernel/panic".into(), msg: p })?;
     for i in 0..n {
         for j in 0..n {
             let want = case.kernel.eval(&case.pts[i], &case.pts[j]);
+            // RBF: exp(-gamma d^2) carries the relative rounding of d^2 times gamma d^2 (<= 1e-12 here)
             ctx.bound(&format!("kernel/{}/closed-form", case.kernel.name()), (g.at(i, j) - want).abs(), 1e-12 * (1.0 + want.abs()))?;
+            ensure!(!matches!(case.kernel, Kern::Rbf { .. }) || (g.at(i, j) >= 0.0 && g.at(i, j) <= 1.0), "kernel/rbf/range", "RBF kernel value {} outside [0, 1]", g.at(i, j));
             ensure!(g.at(i, j).to_bits() == g.at(j, i).to_bits(), format!("kernel/{}/symmetry", case.kernel.name()), "K(x{},x{}) = {:e} but K(x{},x{}) = {:e}", i, j, g.at(i, j), j, i, g.at(j, i));
         }
     }
